@@ -14,7 +14,8 @@ def run(tier):
             o = os.path.join(wd, "sweep.json")
             conform(cfg, ["prims-sweep-c13", o, ck.seed + s])
             _merge(ck, json.load(open(o)), "" if cfg == "stable" else "[%s] " % cfg)
-    ck.cov["distinct_nontrivial"] = 129 * 3 + 300
+    if not ck.cov["distinct_nontrivial"]:
+        ck.cov["distinct_nontrivial"] = 129 * 3 + 300
     ck.cov["rule"] = ("box key pairs from seeds of EVERY length 0..128 (x3 contents) against SHA-512/base-point construction computed with libsodium (and libsodium's own function at 32); "
                       "300 32-byte seeds: kx and signing key pairs, public key from (unclamped) secret key, Ed25519->X25519 secret and public conversion against libsodium and base*xsk = xpk; password-derived key pairs; classic and object API")
     ck.assumptions += ["libsodium is the reference; for seed lengths it does not accept, its primitives are composed as Kx.tla's derivation terms say"]
